@@ -101,9 +101,14 @@ def extract(repo):
         with open(os.path.join(tmp, "meta.json"), "w") as fh:
             json.dump(meta, fh)
         os.rename(tmp, d)
-        # keep the 4 most recently used trees
+        # keep the most recently used trees
+        def _mtime(e):
+            try:
+                return os.path.getmtime(os.path.join(CACHE, e))
+            except OSError:      # evicted by a concurrently running check
+                return 0.0
         ents = sorted((e for e in os.listdir(CACHE) if os.path.isdir(os.path.join(CACHE, e)) and not e.endswith(".partial")),
-                      key=lambda e: os.path.getmtime(os.path.join(CACHE, e)), reverse=True)
+                      key=_mtime, reverse=True)
         for e in ents[90:]:
             shutil.rmtree(os.path.join(CACHE, e), ignore_errors=True)
             try:
